@@ -1522,6 +1522,9 @@ PIP_Decision_Node::solve(const PIP_Problem& pip,
     for (Constraint_System::const_iterator ci = cs.begin(),
            ci_end = cs.end(); ci != ci_end; ++ci) {
       Matrix<Row> ctx_copy(context);
+      // The constraint may mention the artificial parameters of this node
+      // (which are in `all_params'): add their columns to the context.
+      add_artificial_parameters(ctx_copy, num_art_params);
       merge_assign(ctx_copy, Constraint_System(*ci), all_params);
       Row& last = ctx_copy[ctx_copy.num_rows()-1];
       complement_assign(last, last, 1);
